@@ -775,7 +775,7 @@ func runC02(c *Ctx) {
 	_ = nApp
 
 	// ---- R6 one engine per module
-	c.rule("C02-R6", "MPT: in cmd/glyph.setupRoutes registerCompiledRoute is reachable only on the useCompiler==true edge tested after the compile loop; a route with provider injections, and a non-semantic compile error, both clear useCompiler (whole module falls back to the interpreter: no mixed registration)")
+	c.rule("C02-R6", "MPT: in cmd/glyph.setupRoutes registerCompiledRoute is reachable only on the useCompiler==true edge tested after the compile loop; a route with provider injections, a query-parameter default that the compiled handler's literal evaluator refuses, and a non-semantic compile error, all clear useCompiler (whole module falls back to the interpreter: no mixed registration)")
 	if sr := c.mustFn("C02-R6", glyphCmd, "setupRoutes"); sr != nil {
 		// the engine flag is setupRoutes' first (boolean) result, whatever it is called
 		flag := "useCompiler"
@@ -845,6 +845,43 @@ func runC02(c *Ctx) {
 				}
 			}
 		}
+		// a default the compiled handler cannot evaluate (its literal evaluator says no) clears useCompiler:
+		// some clearing block is dominated by a branch on a predicate of cmd/glyph that consults that evaluator
+		clearsOnDefault := false
+		litEval := c.fn(glyphCmd, "evalLiteralExpr")
+		for _, cb := range clearBlocks {
+			for _, b := range sr.Blocks {
+				iff := ifOf(b)
+				if iff == nil || !(b.Dominates(cb)) {
+					continue
+				}
+				if derivesFrom(iff.Cond, func(v ssa.Value) bool {
+					cl, ok := v.(*ssa.Call)
+					if !ok || litEval == nil {
+						return false
+					}
+					sf := staticFn(cl)
+					return sf != nil && (sf == litEval || reachesInstr(sf, func(x ssa.Instruction) bool {
+						c2, ok := x.(ssa.CallInstruction)
+						return ok && staticFn(c2) == litEval
+					}, 0, map[*ssa.Function]bool{}))
+				}) {
+					clearsOnDefault = true
+				}
+			}
+		}
+		// only needed while the handler skips what the evaluator refuses
+		skips := false
+		if cr := c.fn(glyphCmd, "createCompiledRouteHandler"); cr != nil && litEval != nil {
+			for _, cl := range innerClosures(cr) {
+				eachCall(cl, func(call ssa.CallInstruction) {
+					if staticFn(call) == litEval {
+						skips = true
+					}
+				})
+			}
+		}
+		c.ob("C02-R6", "cmd/glyph.setupRoutes#defaults-the-compiled-handler-cannot-evaluate-force-interpreter", sr.Pos(), clearsOnDefault || !skips, "the compiled handler evaluates query-parameter defaults with a literal-only evaluator and skips what it refuses, and setupRoutes does not switch such a module to the interpreter: for `? page: int = -1` the variable stays unbound and a request that omits the parameter gets a 500 where the interpreter answers with the default")
 		c.ob("C02-R6", "cmd/glyph.setupRoutes#injections-force-interpreter", sr.Pos(), clearsOnInjection, "a route with provider injections no longer switches the module to the interpreter (the VM cannot call providers)")
 		c.ob("C02-R6", "cmd/glyph.setupRoutes#compile-error-falls-back-for-whole-module", sr.Pos(), clearsOnCompileErr, "a compile error no longer clears useCompiler for the whole module")
 	}
